@@ -318,6 +318,8 @@ def witness(scn, viol, outs):
         if viol["clause"] == "results_differ":
             kind = viol["key"].split(":")[-1]
             w["result_kind"] = "cli" if ":cli:" in viol["key"] else kind
+            if viol["key"].startswith("cfg"):
+                viol = dict(viol, key=viol["key"].split(":", 1)[1])
             try:
                 i = int(viol["key"].split(":")[0])
                 w["input"] = scn["corpus"][i] if len(scn["corpus"][i]) <= 128 else scn["corpus"][i][:128] + "…"
